@@ -196,12 +196,17 @@ def run(pid, tier, replay=None):
                     if idx >= 2000:
                         break
                     hf.write(line)
-            k = (seed * 7919) % min(2000, cnt[0])
-            got = []
-            for extra_args in ([], ["-corrupt", str(k)]):
+            k0 = (seed * 7919) % min(2000, cnt[0])
+            def _mism(extra_args):
                 rc, o, err = vf.run_driver(binary, ["-seed", str(seed)] + extra_args, stdin_path=head, timeout=3000)
-                got.append([json.loads(l) for l in o.splitlines() if '"stats"' in l][-1]["stats"]["mismatches"])
-            corrupt_ok = got[1] > got[0]
+                return [json.loads(l) for l in o.splitlines() if '"stats"' in l][-1]["stats"]["mismatches"]
+            base_m = _mism([])
+            corrupt_ok = False
+            # a case that already disagrees (known finding) cannot show one more disagreement: try the next ones
+            for k in range(k0, k0 + 25):
+                if _mism(["-corrupt", str(k % min(2000, cnt[0]))]) > base_m:
+                    corrupt_ok = True
+                    break
             if not corrupt_ok:
                 raise vf.MachineryError("binding self-test failed: corrupted expectation in case %d not reported" % k)
 
